@@ -29,7 +29,9 @@ theorem step_returned (s : St) (op : Op) :
   | next =>
     cases hobj : s.obj with
     | none => simp [step, hobj, nums]
-    | some o => cases hl : hasLease o <;> simp [step, hobj, hl, nums, update]
+    | some o =>
+      cases hl : hasLease o <;> by_cases hz : lease (mark s) o.interval = 0 <;>
+        simp [step, hobj, hl, hz, nums, update]
   | release =>
     cases hobj : s.obj with
     | none => simp [step, hobj, nums]
@@ -38,7 +40,8 @@ theorem step_returned (s : St) (op : Op) :
     cases hobj : s.obj with
     | none => simp [step, hobj, nums]
     | some o =>
-      cases hl : hasLease o <;> cases pt <;> simp [step, hobj, hl, nums, abandon_returned]
+      cases hl : hasLease o <;> cases pt <;> by_cases hz : lease (mark s) o.interval = 0 <;>
+        simp [step, hobj, hl, hz, nums, abandon_returned]
   | failNext f =>
     cases hobj : s.obj with
     | none => simp [step, hobj, nums]
@@ -80,10 +83,38 @@ theorem C07_strictly_increasing (ops : List Op) (hw : ∀ op ∈ ops, op.wf) :
   rw [List.pairwise_reverse] at hs
   exact hs
 
-/-- What the next `Next` call of the live object (or of a fresh object) hands out. -/
-theorem C07_next_returns_frontier (s : St) (o : Obj) (hobj : s.obj = some o) :
+/-- What the next `Next` call of the live object (or of a fresh object) hands out, unless the number space
+is exhausted (no lease held and nothing left below `cap`). -/
+theorem C07_next_returns_frontier (s : St) (o : Obj) (hobj : s.obj = some o)
+    (hleft : hasLease o = true ∨ lease (mark s) o.interval ≠ 0) :
     (step s .next).2 = .num (frontier s) := by
-  cases hl : hasLease o <;> simp [step, hobj, hl, frontier, update]
+  cases hl : hasLease o with
+  | true => simp [step, hobj, hl, frontier]
+  | false =>
+    have hz : lease (mark s) o.interval ≠ 0 := by
+      rcases hleft with h | h
+      · rw [hl] at h; cases h
+      · exact h
+    simp [step, hobj, hl, hz, frontier, update]
+
+/-- **Exhaustion is reported, never papered over**: when no lease is held and nothing is left below `cap`
+(`lease = 0`, i.e. the mark is `cap` itself), `Next` returns an error, hands out nothing, writes nothing, and
+the frontier stays where it is — the code no longer wraps around to small numbers. -/
+theorem C07_exhausted_harmless (s : St) (o : Obj) (h : Inv s) (hb : Bnd s) (hobj : s.obj = some o)
+    (hl : hasLease o = false) (hz : lease (mark s) o.interval = 0) :
+    (step s .next).2 = .err ∧ frontier (step s .next).1 = frontier s ∧
+      mark (step s .next).1 = mark s ∧ (step s .next).1.returned = s.returned ∧ mark s = cap := by
+  have hres := h.res_le o hobj
+  have hip := h.ipos o hobj
+  have hc : mark s = cap ∨ cap < mark s := by unfold lease at hz; omega
+  have hstep : step s .next = ({ s with obj := some { o with next := mark s } }, .err) := by
+    simp [step, hobj, hl, hz]
+  rw [hstep]
+  refine ⟨rfl, ?_, rfl, rfl, ?_⟩
+  · simp only [frontier, hobj, hl]
+    split <;> rfl
+  have := hb.mark_le
+  omega
 
 /-- **A clean Release wastes none**: after `release` the stored mark is exactly the next number
 the releasing object would have handed out, so a fresh object continues without a gap. -/
@@ -119,6 +150,59 @@ theorem C07_crash_wastes_le_interval (ops : List Op) (hw : ∀ op ∈ ops, op.wf
       have := h.nolease (by intro o' ho'; rw [hobj] at ho'; cases ho'; exact hl)
       simp only [hl, Bool.false_eq_true, if_false]; exact ⟨h.below_mark, this⟩
 
+/-- **No wrap-around.**  In every reachable state the stored mark, the live object's `next` and `reserved`
+and every number handed out are at most `cap` = 2^64-1 (numbers handed out are strictly below it).  Every
+value the code computes (`seq.next + lease`, `seq.next++`, the value written by `Release`) is one of these
+values of the successor state, so the `uint64` arithmetic of kvstore/sequence.go never wraps and coincides
+with the model's `Nat` arithmetic (field types: `C07_skeleton_type_sequence`). -/
+theorem C07_no_wrap (ops : List Op) (hw : ∀ op ∈ ops, op.wf) :
+    let s := final init ops
+    mark s ≤ cap ∧ (∀ o, s.obj = some o → o.next ≤ cap ∧ o.reserved ≤ cap) ∧ (∀ r ∈ s.returned, r < cap) := by
+  have hi := inv_final ops hw inv_init
+  have hb := bnd_final ops hw inv_init bnd_init
+  intro s
+  refine ⟨hb.mark_le, ?_, ?_⟩
+  · intro o ho
+    exact ⟨Nat.le_trans (hb.next_le o ho) hb.mark_le, Nat.le_trans (hi.res_le o ho) hb.mark_le⟩
+  · intro r hr
+    exact Nat.lt_of_lt_of_le (hi.below_mark r hr) hb.mark_le
+
+/-- The lease `update` takes is the interval cut off at the end of the number space: never longer than the
+interval (so the waste bound of `C07_crash_wastes_le_interval` is unaffected) and never past `cap`. -/
+theorem C07_lease_spec (m i : Nat) (hm : m ≤ cap) :
+    lease m i ≤ i ∧ m + lease m i ≤ cap ∧ (lease m i = 0 ↔ i = 0 ∨ m = cap) := by
+  unfold lease; omega
+
+/-- Model of the *old* `update` (before the repair): `reserved := seq.next + seq.interval` in wrapping
+`uint64` arithmetic. -/
+def oldNextWrap (s : St) : St × Out :=
+  match s.obj with
+  | none => (s, .noobj)
+  | some o =>
+    if hasLease o then step s .next
+    else
+      let m := mark s
+      let r := (m + o.interval) % (cap + 1)
+      ({ s with store := some r, obj := some { o with next := m + 1, reserved := r }, returned := m :: s.returned },
+        .num m)
+
+/-- Witness that the unrepaired `update` reused numbers through wrap-around, without any crash:
+`new(MaxUint64); Next → 0; Release; new(MaxUint64); Next → 1; Next → 0` (replayed on the real code before
+the repair: same answers).  The repaired model answers `0, 1, 2`. -/
+theorem C07_old_update_wrap_witness :
+    let s1 := (step (step (step init (.new cap)).1 .next).1 .release).1
+    let s2 := (oldNextWrap (step s1 (.new cap)).1).1
+    (oldNextWrap (step s1 (.new cap)).1).2 = .num 1 ∧ (oldNextWrap s2).2 = .num 0 ∧
+      (run init [.new cap, .next, .release, .new cap, .next, .next]).2 = [.ok, .num 0, .ok, .ok, .num 1, .num 2] := by
+  decide
+
+/-- Non-vacuity at the end of the number space: a `MaxUint64` lease abandoned by a crash uses up the whole
+space (the waste budget allows exactly that), and every later `Next` reports exhaustion instead of
+starting again from small numbers. -/
+example : (run init [.new cap, .next, .crash .idle, .new 5, .next, .next, .crash .nextWrite, .release]).2
+      = [.ok, .num 0, .crashed, .ok, .err, .err, .err, .ok] := by
+  decide
+
 /-- The budget grows only when an object is abandoned (restart without release, or crash) and then
 by exactly that object's interval. -/
 theorem C07_budget_step (s : St) (op : Op) :
@@ -134,7 +218,8 @@ theorem C07_budget_step (s : St) (op : Op) :
     left
     cases hobj : s.obj with
     | none => simp [step, hobj]
-    | some o => cases hl : hasLease o <;> simp [step, hobj, hl]
+    | some o =>
+      cases hl : hasLease o <;> by_cases hz : lease (mark s) o.interval = 0 <;> simp [step, hobj, hl, hz]
   | release =>
     left
     cases hobj : s.obj with
@@ -144,9 +229,13 @@ theorem C07_budget_step (s : St) (op : Op) :
     cases hobj : s.obj with
     | none => left; simp [step, hobj]
     | some o =>
-      right
-      refine ⟨o, rfl, ?_, ?_⟩ <;>
-        cases hl : hasLease o <;> cases pt <;> simp [step, hobj, hl, abandon]
+      -- an exhausted `Next` makes no store write: the crash point is not reached, the call returns its error
+      by_cases hex : pt = .nextWrite ∧ hasLease o = false ∧ lease (mark s) o.interval = 0
+      · left; obtain ⟨rfl, hl, hz⟩ := hex; simp [step, hobj, hl, hz]
+      · right
+        refine ⟨o, rfl, ?_, ?_⟩ <;>
+          cases hl : hasLease o <;> cases pt <;> by_cases hz : lease (mark s) o.interval = 0 <;>
+            simp_all [step, abandon]
   | failNext f =>
     left
     cases hobj : s.obj with
@@ -188,8 +277,10 @@ theorem C07_skeleton_release : skel_Sequence_Release =
 
 open Hive.Gen.C07Skel in
 theorem C07_skeleton_update : skel_Sequence_update =
-    ["call seq.store.Get", "switch{", "case", "case", "return", "case", "}switch", "call seq.store.Set", "if{",
-      "return", "}if", "return"] := by decide
+    ["call seq.store.Get", "switch{", "case", "case", "return", "case", "}switch",
+      "if{", "}if",             -- the lease is cut off at the end of the number space
+      "if{", "return", "}if",   -- nothing left: ErrSequenceExhausted, before any store write
+      "call seq.store.Set", "if{", "return", "}if", "return"] := by decide
 
 /-- The object's fields: one embedded mutex (the `lock seq` of the skeletons above), the store handle and
 key, and the three 64-bit counters the model calls `interval`, `next`, `reserved`. -/
@@ -209,7 +300,7 @@ theorem C07_store_error_harmless (s : St) (o : Obj) (h : Inv s) (hobj : s.obj = 
   | set =>
     have hnl : hasLease { o with next := mark s } = false := by
       simp only [hasLease, decide_eq_false_iff_not]; omega
-    simp [step, hobj, hl, frontier, hnl, mark]
+    simp [step, hobj, hl, frontier, mark]
 
 /-- Non-vacuity: a history exercising restart, lease, release and all crash points, with its
 outputs. -/
